@@ -25,7 +25,7 @@ import asyncio
 import random
 import sys
 
-from ..collect import sig_of
+from ..collect import guarded, sig_of
 from ..loops import BusyLoop, Deadlock, run
 from ..sched import Actor, Harness, run_actors
 
@@ -564,11 +564,11 @@ def shards(tier: str, seed: int) -> list[dict]:
 def run_shard(desc: dict, col) -> None:  # noqa: ANN001
     for i, case in enumerate(all_cases(desc["tier"], desc["seed"])):
         if i % desc["of"] == desc["shard"]:
-            judge(case, col)
+            guarded(col, case, judge, case, col)
 
 
 def replay(case: dict, col) -> None:  # noqa: ANN001
-    judge(case, col)
+    guarded(col, case, judge, case, col)
 
 
 def finish(col, tier: str) -> None:  # noqa: ANN001
